@@ -94,6 +94,23 @@ def rand_chain_ig(rng):
     return {"rules": rules, "start": "S"}
 
 
+def rand_deep_ig(rng):
+    """Two indices pushed on top of each other, a duplication between the two consumptions, and a nonterminal that cannot consume the
+    deeper index itself while the two it duplicates into can (marked sets of different sizes have to be kept side by side)."""
+    f, g = rng.sample(IDX, 2) if rng.random() < 0.7 else (IDX[0], IDX[0])
+    rules = [["prod", "S", "A", g], ["prod", "A", "R", f], ["dup", "R", "C", "D"], ["cons", f, "C", "X"], ["cons", f, "D", "W"],
+             ["dup", "X", "Y", "Z"], ["cons", g, "Y", "E"], ["cons", g, "Z", "E"], ["end", "E", rng.choice(TERS)], ["end", "W", rng.choice(TERS)]]
+    r = rng.random()
+    if r < 0.35:
+        del rules[rng.randrange(len(rules))]
+    elif r < 0.5:
+        rules.append(["cons", g, "X", "E"])
+    elif r < 0.6:
+        rules.append(["end", "X", rng.choice(TERS + ["epsilon"])])
+    rng.shuffle(rules)
+    return {"rules": rules, "start": "S"}
+
+
 def bounded_nonempty(rules, start="S", depth=4):
     """Untrusted reference (search leg only): True if S[] derives a terminal word using stacks of height <= depth."""
     gen = set()
